@@ -848,6 +848,24 @@ def dft_checks(ctx, lean, oracle, c, op, case):
         if sorted(axes) == list(range(len(c["shape"]))):  # all axes: the definition of C04_dft_nd_inv must agree
             if not _close(_cmat(lean.m.call("dftnd", dims=c["shape"], norm=c["norm"] or "backward", inv=False)), Dn, 1e-12):
                 raise common.Infra("model: dftNd and dftAxes differ")
+    # the N-d definitions of the model for ANY axes_shape (zero padding and truncation): forward map, inverse as coded
+    # (crop / pad of the spectrum), documented inverse (C04_dft_nd_inv_documented)
+    nd_mats = None
+    if _prod(op.output_shape) <= 16 and _prod(c["shape"]) <= 16 and len(set(axes)) == len(axes):
+        ms = list(c["shape"])
+        for a, m in zip(axes, ash):
+            ms[a] = m
+        rr = lean.m.call("dftpad", ns=c["shape"], ms=ms, axes=sorted(axes), norm=c["norm"] or "backward")
+        nd_mats = {k: _cmat(rr[k]) for k in ("fwd", "inv_coded", "inv_doc")}
+        ctx.count("dft-nd-padded-definition")
+        if not _close(R, nd_mats["fwd"], 1e-9):
+            ctx.disagree("linops.DFT.nd_padded", case, _summ(R), _summ(nd_mats["fwd"]), oracle=oracle, note="N-d padded DFT of the model (dftFwdPad) differs from the real operator")
+            return
+        if all(m >= c["shape"][a] for a, m in zip(axes, ash)):  # no truncation: hypothesis FitsPad of C04_dft_nd_inv_documented
+            if not _close(nd_mats["inv_doc"], linops_ref.dft_inverse_documented(c), 1e-9):
+                raise common.Infra("model: documented N-d inverse differs from the numpy formula")
+            if not _close(nd_mats["inv_doc"] @ nd_mats["fwd"], np.eye(R.shape[1]), 1e-9):
+                raise common.Infra("model: documented inverse does not undo the padded transform (contradicts C04_dft_nd_inv_documented)")
     # inverse as coded (crop / pad of the spectrum) from the Lean model
     n_out = _prod(op.output_shape)
     Rinv = opgrid.dense(op, fn=None, dtype=np.complex128) if False else None
@@ -868,6 +886,8 @@ def dft_checks(ctx, lean, oracle, c, op, case):
         Di = linops_ref.kron_axis(cur, a, W) @ Di
         cur[a] = n
     ctx.count("dft-inverse-as-coded")
+    if nd_mats is not None and not _close(nd_mats["inv_coded"], Di, 1e-9):
+        raise common.Infra("model: N-d coded inverse (dftInvCodedNd) differs from the lifted 1-d matrices")
     if not _close(Rinv, Di, 1e-9):
         # property oracle for the inverse: inv(eval(x)) = x (only meaningful when the transform size equals the input size;
         # the zero-padded case is the known finding dft-inv-padded)
